@@ -56,6 +56,10 @@ func runC19(c *an.Ctx) {
 	c.Min("R19.8", 3)
 	r054as(c, "R19.10") // an empty update mask writes nothing, so the "does this write `normal`" guard and the write agree (shared with R05.4)
 	c.Min("R19.10", 1)
+	shareAs(c, "R01.2", "R19.11", r012, nil) // the after-interceptor (which stamps the start time) works on the message that is stored (shared with R01.2)
+	c.Min("R19.11", 3)
+	r0113(c, "R19.12") // DeleteMode/UpdateMode hand their options on: allow_missing reaches the collection (shared with R01.13)
+	c.Min("R19.12", 40)
 	r0112(c, "R19.9") // allow_missing, create-if-absent, expected checks: an option does what its argument says (shared with R01.12)
 	c.Min("R19.9", 60)
 	c.Min("R19.1", 8)
